@@ -4,6 +4,7 @@ package main
 // selected by the function's integer model, plus the contract-level functions that map onto them.
 
 import (
+	"go/types"
 	"fmt"
 	"math/big"
 	"strings"
@@ -150,6 +151,15 @@ func init() {
 			}
 			e.c.declareFun("MapHas", "(Int Int) Bool")
 			return Scalar{"(MapHas " + m.Id + " " + e.c.keyID(e.st, a[1]) + ")", boolSort}
+		},
+		// unixsec(t), unixnano(t): the instant a time.Time denotes, as whole seconds since the Unix epoch and the
+		// nanoseconds within that second — uninterpreted observers of the (opaque) time.Time value; their meaning
+		// comes from the trusted contracts of the functions that produce and consume time.Time values
+		"unixsec": func(e *SpecEnv, a []Val) Val {
+			return e.c.pureApply("spec:unixsec", a[:1], types.Typ[types.Int64], e.st)[0]
+		},
+		"unixnano": func(e *SpecEnv, a []Val) Val {
+			return e.c.pureApply("spec:unixnano", a[:1], types.Typ[types.Int64], e.st)[0]
 		},
 		"sign": func(e *SpecEnv, a []Val) Val {
 			v := a[0].(Scalar)
